@@ -98,21 +98,30 @@ func fitsS(v *big.Int, bits int) bool {
 	return new(big.Int).Add(v, big.NewInt(1)).BitLen() <= bits-1
 }
 
-var nmfTypes = []string{"uint8", "uint16", "uint32", "uint64", "uint", "int8", "int16", "int32", "int64", "int", "*big.Int", "[]byte", "net.IP", "net.HardwareAddr"}
+var nmfTypes = []string{"uint8", "uint16", "uint32", "uint64", "uint", "int8", "int16", "int32", "int64", "int", "*big.Int", "[]byte", "net.IP", "net.HardwareAddr",
+	"named uint32", "named int16", "named uint8"}
+
+// integer types of the caller's own: the builder's type parameter admits every type whose underlying type is an
+// integer (constraints.Integer is a union of ~int, ~uint32, ...), e.g. a controller's `type RegMark uint32`
+type (
+	c17RegMark uint32
+	c17Delta   int16
+	c17Proto   uint8
+)
 
 func typeHolds(ty string, v *big.Int, width int) bool {
 	switch ty {
-	case "uint8":
+	case "uint8", "named uint8":
 		return fitsU(v, 8)
 	case "uint16":
 		return fitsU(v, 16)
-	case "uint32":
+	case "uint32", "named uint32":
 		return fitsU(v, 32)
 	case "uint64", "uint":
 		return fitsU(v, 64)
 	case "int8":
 		return fitsS(v, 8)
-	case "int16":
+	case "int16", "named int16":
 		return fitsS(v, 16)
 	case "int32":
 		return fitsS(v, 32)
@@ -168,6 +177,12 @@ func nmfCall(k nmfCase) (f *of.MatchField, err error, argBefore, argAfter string
 	}
 	k.name = name
 	switch k.vtype {
+	case "named uint32":
+		f, err = of.NewMatchField(k.name, c17RegMark(v.Uint64()), w...)
+	case "named int16":
+		f, err = of.NewMatchField(k.name, c17Delta(v.Int64()), w...)
+	case "named uint8":
+		f, err = of.NewMatchField(k.name, c17Proto(v.Uint64()), w...)
 	case "uint8":
 		f, err = of.NewMatchField(k.name, uint8(v.Uint64()), w...)
 	case "uint16":
